@@ -27,7 +27,7 @@ LEVEL_TEXT = ("Seeded exploration of snapshot instants x programs, differential 
               "plus a budget count over both incarnations and a serialize/deserialize fixpoint check of the snapshot itself.")
 LEVEL_NOTE = "Trusted: simulator loop; determinism-by-construction of the generated programs (path ids, idempotent writes)."
 
-CFG = {"checkpoints": True, "driver": "finish", "grid": [0, 1, 1, 2, 3], "p_wait": 0, "p_external": 0, "allow_twins": True}
+CFG = {"allow_join": True, "checkpoints": True, "driver": "finish", "grid": [0, 1, 1, 2, 3], "p_wait": 0, "p_external": 0, "allow_twins": True}
 
 
 def gen(tape, cfg):
@@ -58,10 +58,21 @@ def gen(tape, cfg):
         steps.append({"name": "h", "accepts": ["StepFailedEvent"], "workers": 1, "sync": False, "retry": None, "role": "catch",
                       "for_steps": None, "max_recoveries": tape.rng_int(1, 2, "h.max"),
                       "scripts": {"StepFailedEvent": [("work",), ("hset",), ("ret", None)]}, "returns": [], "stop": False})
+    join = False
+    if cfg.get("allow_join") and two and not twins and tape.chance(35, 100, "join?"):
+        # a fan-in: s0 also sends one E2; step jn collects one E1 (the first to arrive; later ones stay buffered as surplus) and the
+        # E2, then writes one fixed key. Whatever the schedule, a complete run writes "jn_done" exactly when >=1 E1 was produced.
+        join = True
+        s0 = steps[0]
+        s0["scripts"] = {k: [a for a in sc if a[0] != "ret"] + [("psend", "E2", 1), ("ret", None)] for k, sc in s0["scripts"].items()}
+        s0["returns"] = ["E0", "E2"]
+        steps.append({"name": "jn", "accepts": ["E1", "E2"], "workers": 1, "sync": False, "retry": None, "role": "step",
+                      "scripts": {t: [("collect", ["E1", "E2"], None), ("psetk", "jn_done"), ("ret", None)] for t in ("E1", "E2")},
+                      "returns": [], "stop": False})
     steps.append({"name": "zfin", "accepts": ["Fin"], "workers": 1, "sync": False, "retry": None, "role": "step",
                   "scripts": {"Fin": [("pstop",)]}, "returns": [], "stop": True})
-    return {"steps": steps, "types": ["E0", "E1"] if two else ["E0"], "timeout": None, "driver": "finish", "disable_validation": False,
-            "twins": twins}
+    return {"steps": steps, "types": (["E0", "E1", "E2"] if join else (["E0", "E1"] if two else ["E0"])), "timeout": None, "driver": "finish", "disable_validation": False,
+            "twins": twins, "join": join}
 
 
 def completions(recs) -> dict:
